@@ -19,6 +19,7 @@ func init() {
 			"PV-API label regexps are compiled anchored; CH-MAP string matcher table (=~ is a regexp match, case flags included)",
 			"LP-PIPE BuildPipeline: one processor per stage, in order (no reordering of filters across rewriting stages)",
 			"PV-WHOLE LabelSet.Range visits every label; PV-ROLE template functions bound to strings.* carry that function's name",
+			"PV-ROLE templates are executed over set.AsMap() on every path",
 		},
 		NotDecided: []string{"what text/template and sprig functions compute", "whether ansiPattern matches exactly the ANSI colour sequences (regexp semantics)"},
 		Rules: func(r *Run) {
@@ -49,6 +50,7 @@ func init() {
 			ruleLPPipe(r)     // the stages run in the order they were written
 			ruleLabelSetRangeWhole(r)
 			ruleTemplateStringsByName(r)
+			ruleTemplateDataIsLabels(r)
 		},
 	})
 }
